@@ -28,7 +28,12 @@ hide anything.
 All ordered pairs and all triples are checked through the pair tables; the
 thorough tier adds seeded random nestings.  A third driver checks the same
 laws on values that have been *mutated* (every mutator, every notification
-mode, after every observer has been used, in place or on a copy).
+mode, after every observer has been used, in place or on a copy).  A fourth
+driver checks them on objects of every concrete class that the library itself
+defines (pg.geno, pg.hyper, pg.tuning, pg.patching, HTML controls, pyglove.ext),
+built from the class schemas with one field varied at a time -- a class may
+define sym_eq / sym_lt / sym_hash / == / hash() of its own and treat a single
+field differently in one of them.
 
 The oracles are the laws of the statement.  The only extra reference is a
 structural model of the *pool* (the same expressions evaluated with plain
@@ -42,7 +47,8 @@ structural class found at aligned positions (tuple-elements, permuted-dict-keys,
 same-qualname-classes, typed-missing-different-specs), else the special leaf
 kind(s) of the first aligned pair that holds one (`<kind>-leaves`), else the
 kinds of the two values.  Triples and sorted samples get the one class picked
-by `_pick` from the classes of their pairs.
+by `_pick` from the classes of their pairs.  Library classes (driver 4):
+lib/<class>.<field> for two objects that differ in that field only (see there).
 """
 import enum
 import fractions
@@ -102,6 +108,11 @@ _PARTS = {
     'T': ("@pg.members([('n', pg.typing.Int(default=0)), ('tags', pg.typing.List(pg.typing.Int(), default=[])),\n"
           "  ('sub', pg.typing.Dict([('u', pg.typing.Int(default=1)), ('w', pg.typing.Any(default=None))]))])\n"
           "class T(pg.Object): pass\n"),
+    # classes shipped with the library, by module and name (a package attribute
+    # may shadow a module: pg.geno.custom is a function); two functions that
+    # fit every callable field (different byte code).
+    'LIB': ("import importlib\n_c = lambda m, n: getattr(importlib.import_module(m), n)\n"
+            "fv_1 = lambda *a, **k: 1\nfv_2 = lambda *a, **k: len(a)\n"),
 }
 PRE = 'import pyglove as pg\n' + ''.join(_PARTS.values())
 
@@ -114,7 +125,7 @@ _PART_NAMES = {
     'FN': ('f_add1', 'f_add2', 'f_mul', 'g_a', 'g_b', 'g_k1', 'g_k2', 'c_1', 'c_2', 'p_1'),
     'H': ('H', 'h1', 'h2'), 'F': ('F',), 'W': ('W', 'WE', '_K'),
     'R': ('r_1', 'r_2', 'r_3'), 'RC': ('r_d', 'r_l'),
-    'T': ('T',),
+    'T': ('T',), 'LIB': ('_c', 'fv_1', 'fv_2'),
 }
 _NEEDS_F = ('A', 'A2', 'B', 'C', 'N', 'L')
 
@@ -679,11 +690,17 @@ def _build(exprs):
   return ns, xs, ys
 
 
+_W_LAST = [None, None]
+
+
 def _w(ea, eb, body, ec=None):
-  s = _pre(ea, eb, ec or '') + f'a = {ea}\nb = {eb}\n'
-  if ec is not None:
-    s += f'c = {ec}\n'
-  return _fit(s + body, (ea, eb, ec))
+  key = (ea, eb, ec)
+  if _W_LAST[0] != key:       # the cases of one pair come in a row.
+    s = _pre(ea, eb, ec or '') + f'a = {ea}\nb = {eb}\n'
+    if ec is not None:
+      s += f'c = {ec}\n'
+    _W_LAST[:] = [key, s]
+  return _fit(_W_LAST[1] + body, key)
 
 
 def _call(fn, *args):
@@ -708,7 +725,26 @@ def drv_laws(tier, seed):
             f'pairs, all {n**3} triples; seed adds random nestings')
   _, xs, ys = _build(exprs)
   norms = [_try_norm(e) for e in exprs]
+  _check_laws(rec, exprs, xs, ys, norms)
+  return rec.result()
 
+
+def _check_laws(rec, exprs, xs, ys, norms, pair_label=None, kind=None, pick=None,
+                literal_hash=True, skip=None):
+  """The unary, pair and triple laws over xs[i] / ys[j] (two independent
+  constructions of exprs[i]).
+
+    pair_label(i, j, x, y): input class of a pair (default: `_pair_label`);
+    kind(x): input class of one value (default: `_kind`);
+    pick(labels): the one class of a triple, or None (default: `_pick`);
+    literal_hash: demand hash(a) == pg.hash(a) of opted-in classes (else only
+      what the pair law `operator.hash-equal-for-==` demands);
+    skip(i, j): pairs left out of the scope (and the triples through them).
+  """
+  n = len(exprs)
+  plabel = pair_label or (lambda i, j, x, y: _pair_label(x, y))
+  kind_of = kind or _kind
+  pick_of = pick or _pick
   E = [[None] * n for _ in range(n)]     # eq(X[i], Y[j])
   L = [[None] * n for _ in range(n)]     # lt(X[i], Y[j])
   R = [[None] * n for _ in range(n)]     # lt(Y[j], X[i])
@@ -722,7 +758,7 @@ def drv_laws(tier, seed):
   # ---- unary: reflexivity, hash defined and stable, operators agree.
   for i, e in enumerate(exprs):
     x, y = xs[i], ys[i]
-    k = _kind(x)
+    k = kind_of(x)
     r = _call(pg.eq, x, x)
     rec.case(f'eq.reflexive-same-object/{k}', e, r == ('ok', True), f'pg.eq(a, a) -> {r}',
              _w(e, 'a', 'assert pg.eq(a, a) is True'))
@@ -732,14 +768,14 @@ def drv_laws(tier, seed):
     # a raise is the same defect as `lt.total` of the pair (a, a): same case id.
     r = _call(pg.lt, x, x)
     if r[0] == 'exc':
-      rec.case(f'lt.total/{_pair_label(x, x)}', (e, e), False, f'pg.lt(a, a) -> {r}',
+      rec.case(f'lt.total/{plabel(i, i, x, x)}', (e, e), False, f'pg.lt(a, a) -> {r}',
                _w(e, 'a', 'assert isinstance(pg.lt(a, b), bool)'))
     else:
       rec.case(f'lt.irreflexive-same-object/{k}', e, r == ('ok', False), f'pg.lt(a, a) -> {r}',
                _w(e, 'a', 'assert pg.lt(a, a) is False'))
     r = _call(pg.gt, x, x)
     if r[0] == 'exc':
-      rec.case(f'lt.total/{_pair_label(x, x)}', (e, e), False, f'pg.gt(a, a) -> {r}',
+      rec.case(f'lt.total/{plabel(i, i, x, x)}', (e, e), False, f'pg.gt(a, a) -> {r}',
                _w(e, 'a', 'assert isinstance(pg.gt(a, b), bool)'))
     else:
       rec.case(f'gt.irreflexive-same-object/{k}', e, r == ('ok', False), f'pg.gt(a, a) -> {r}',
@@ -776,7 +812,7 @@ def drv_laws(tier, seed):
         OH[i] = r[1] if r[0] == 'ok' else None
         ry = _call(hash, y)
         OHY[i] = ry[1] if ry[0] == 'ok' else None
-        if _opted_in(x):
+        if _opted_in(x) and literal_hash:
           # hash() agrees with the symbolic hash: the same answer, or both refuse.
           rec.case(f'operator.hash-agrees/{ksfx}', e, _outcome(r) == _outcome(h1),
                    f'hash(a) -> {r}, pg.hash(a) -> {h1}',
@@ -786,10 +822,12 @@ def drv_laws(tier, seed):
   for i in range(n):
     x = xs[i]
     for j in range(n):
+      if skip is not None and skip(i, j):
+        continue
       y = ys[j]
       ea, eb = exprs[i], exprs[j]
       key = (ea, eb)
-      lab = PL[i][j] = _pair_label(x, y)
+      lab = PL[i][j] = plabel(i, j, x, y)
       req = _call(pg.eq, x, y)
       rne = _call(pg.ne, x, y)
       rlt = _call(pg.lt, x, y)
@@ -872,10 +910,10 @@ def drv_laws(tier, seed):
     """One id per law and input class; all order laws over triples that involve
     a pair of a special class (order-permuted dicts, a special leaf kind, ...)
     share one id per class (one defect); of several classes one is picked."""
-    lab = _pick((perm[i][j], perm[j][k], perm[i][k]))
+    lab = pick_of((perm[i][j], perm[j][k], perm[i][k]))
     if lab:
       return f'triple-laws/{lab}'
-    return f'{law}/' + '~'.join(sorted({_kind(xs[i]), _kind(xs[j]), _kind(xs[k])}))
+    return f'{law}/' + '~'.join(sorted({kind_of(xs[i]), kind_of(xs[j]), kind_of(xs[k])}))
 
   for i in range(n):
     Ei, Li = E[i], L[i]
@@ -912,7 +950,6 @@ def drv_laws(tier, seed):
                      'lt(a,b) and eq(b,c) but not lt(a,c)',
                      _w(exprs[i], exprs[j], 'assert not (pg.lt(a, b) and pg.eq(b, c)) or pg.lt(a, c)', exprs[k]))
   rec.keys.add(('triples', n ** 3))
-  return rec.result()
 
 
 # ---------------------------------------------------------------------------
@@ -1444,6 +1481,435 @@ def drv_mutation(tier, seed):
   return rec.result()
 
 
+# ---------------------------------------------------------------------------
+# Driver 4: the laws on objects of the classes that the library itself ships
+# (pg.geno / pg.hyper / pg.tuning / pg.patching / HTML controls / pg.symbolic
+# helpers / pyglove.ext.*), one field varied at a time.
+#
+# A class of the library may define its own sym_eq / sym_lt / sym_hash / __eq__
+# / __hash__ (CustomDecisionPoint, DNA, the tuning data entities do), and such
+# a definition can forget -- or handle in only one of the three -- any single
+# field.  So the scope is: every concrete pg.Object class defined in a pyglove
+# module; for each class a base object and, for every declared field, objects
+# that differ from the base in that field only (values derived from the field's
+# value spec: numbers, strings, enum values, lists, dicts, key paths, callables,
+# nested library objects, None where allowed); each built twice; the same
+# values below a list, a symbolic dict, an object field and (decision points) a
+# pg.geno.Space.  All ordered pairs and triples of a class's family go through
+# the laws; the base objects of all classes (and a few ordinary values) form
+# one more table for the laws across classes.
+#
+# The oracle is the laws only: whether two objects that differ in a field are
+# the same value is up to the class (a class may treat a field as irrelevant),
+# but then eq, lt and hash must say so consistently.
+#
+# Case ids: <law>/lib/<class>.<field> for pairs that differ in that one field;
+# lib/<class>/same-fields, /several-fields, /different-containers for the other
+# pairs of a family; lib/cross-class across classes.  Where the values of the
+# differing field are of an input class with an id of its own (callables, sets,
+# references, leaves without <, permuted dict keys, ...) the pair carries that
+# id (the defect is the leaf kind's, whatever holds it); an object that stands
+# for a value inferred from its context, held by a symbolic dict / an object
+# field, is `inferred-value-in-symbolic-parent`.
+#
+# hash(): for these classes the operator laws are `==`/`!=` agree with pg.eq /
+# pg.ne and a == b implies hash(a) == hash(b); the number hash(a) is not
+# compared with pg.hash(a) (the tuning data entities hash their repr, which is
+# consistent with ==).
+# ---------------------------------------------------------------------------
+
+_LIB_EXT = ('pyglove.ext.evolution', 'pyglove.ext.mutfun', 'pyglove.ext.early_stopping',
+            'pyglove.ext.scalars')
+# Left out: pg.Diff (see the note at the pool), pg.Ref (in the pool, with its
+# targets; it cannot be built from a schema).
+_LIB_EXCLUDE = ('pyglove.core.symbolic.diff.Diff', 'pyglove.core.symbolic.ref.Ref')
+# Base arguments where the first values that fit the field specs one by one do
+# not fit together.
+_LIB_BASE = {
+    'pyglove.core.hyper.categorical.OneOf': {'candidates': '[1, 2]'},
+    'pyglove.core.hyper.categorical.ManyOf': {'candidates': '[1, 2, 3]', 'num_choices': '2'},
+    'pyglove.core.hyper.categorical.Choices': {'candidates': '[1, 2, 3]', 'num_choices': '2'},
+    'pyglove.core.hyper.derived.ValueReference': {'reference_paths': "[pg.KeyPath.parse('a')]"},
+}
+# Field values instead of the derived ones.  CustomDecisionPoint: one function
+# (against None) per function field -- two different functions there would show
+# two known defects (no order on callables; eq ignores the function fields) in
+# one pair.
+_LIB_FIELD = {
+    ('pyglove.core.geno.custom.CustomDecisionPoint', 'next_dna_fn'): ['fv_1'],
+    ('pyglove.core.geno.custom.CustomDecisionPoint', 'random_dna_fn'): ['fv_1'],
+    # DNA drops children that hold nothing: children with a value.
+    ('pyglove.core.geno.base.DNA', 'children'): ['[pg.geno.DNA(1)]', '[pg.geno.DNA(2)]',
+                                                 '[pg.geno.DNA(1), pg.geno.DNA(2)]'],
+}
+_LIB_CUSTOM = 'pyglove.core.geno.custom.CustomDecisionPoint'
+_LIB_NS = None
+_LIB_CACHE = {}
+
+
+def _lib_ns():
+  global _LIB_NS
+  if _LIB_NS is None:
+    _LIB_NS = _new_ns('c06lib')
+    exec(PRE, _LIB_NS)  # pylint: disable=exec-used
+  return _LIB_NS
+
+
+def _lib_path(c):
+  return c.__module__ + '.' + c.__qualname__
+
+
+def _lib_short(c):
+  return _lib_path(c).replace('pyglove.core.', '').replace('pyglove.', '')
+
+
+def _lib_ctor(c):
+  return f'_c({c.__module__!r}, {c.__qualname__!r})'
+
+
+def _lib_classes():
+  """Every concrete pg.Object class defined in a module of the library."""
+  import importlib
+  import sys
+  for m in _LIB_EXT:
+    try:
+      importlib.import_module(m)
+    except Exception:  # pylint: disable=broad-except
+      pass
+  seen = set()
+
+  def walk(c):
+    for sub in c.__subclasses__():
+      if sub not in seen:
+        seen.add(sub)
+        walk(sub)
+  walk(pg.Object)
+  out = []
+  for c in seen:
+    mod = c.__module__ or ''
+    if (not mod.startswith('pyglove.') or mod.endswith('_test') or '<' in c.__qualname__
+        or '.' in c.__qualname__ or inspect.isabstract(c) or _lib_path(c) in _LIB_EXCLUDE):
+      continue
+    if getattr(sys.modules.get(mod), c.__qualname__, None) is not c:
+      continue
+    out.append(c)
+  return sorted(out, key=_lib_path)
+
+
+def _lib_eval(src):
+  return eval(src, _lib_ns())  # pylint: disable=eval-used
+
+
+def _lib_fits(spec, src):
+  try:
+    spec.apply(_lib_eval(src))
+    return True
+  except Exception:  # pylint: disable=broad-except
+    return False
+
+
+def _lib_spec_srcs(spec, classes, depth=0):
+  """Sources of values that the value spec accepts (the oracle does not depend on them)."""
+  t = pg.typing
+  out = []
+  if isinstance(spec, t.Bool):
+    out = ['False', 'True']
+  elif isinstance(spec, t.Int):
+    lo = spec.min_value if spec.min_value is not None else 1
+    out = [str(lo), str(lo + 1), str(lo + 2)]
+  elif isinstance(spec, t.Float):
+    lo = spec.min_value if spec.min_value is not None else 0.0
+    out = [repr(lo + 0.5), repr(lo + 1.5), repr(lo + 0.25)]
+  elif isinstance(spec, t.Str):
+    out = ["'a'", "'b'", "''"]
+  elif isinstance(spec, t.Enum):
+    out = [repr(v) for v in spec.values if v is None or isinstance(v, (str, int, float, bool))]
+  elif isinstance(spec, t.List):
+    e = _lib_spec_srcs(spec.element.value, classes, depth + 1) if depth < 3 else []
+    out = ['[]'] + [f'[{x}]' for x in e[:2]]
+    if len(e) > 1:
+      out += [f'[{e[0]}, {e[1]}]', f'[{e[1]}, {e[0]}]']
+  elif isinstance(spec, t.Dict):
+    out = ['{}']
+    fields = list(spec.schema.fields.items()) if spec.schema is not None else []
+    for k, f in fields[:2]:
+      key = str(k) if isinstance(k, t.ConstStrKey) else 'k'
+      vals = _lib_spec_srcs(f.value, classes, depth + 1) if depth < 3 else []
+      out += [f'{{{key!r}: {v}}}' for v in vals[:2]]
+    if not fields:
+      out += ["{'k': 1}", "{'k': 2}", "{'j': 1}"]
+  elif isinstance(spec, t.Object):
+    cls = spec.cls
+    if cls is pg.KeyPath:
+      out = ["pg.KeyPath.parse('a')", "pg.KeyPath.parse('a.b')", "pg.KeyPath.parse('b')"]
+    elif cls is pg.Symbolic:
+      out = ['pg.Dict(k=1)', 'pg.Dict(k=2)', 'pg.List([1])']
+    elif inspect.isclass(cls) and issubclass(cls, pg.Object) and depth < 3:
+      subs = [c for c in classes if issubclass(c, cls)]
+      for sub in subs[:3]:
+        # two objects of the first class, one of the next two.
+        out += [m['src'] for m in _lib_family(sub, classes, depth + 1)[:(2 if sub is subs[0] else 1)]]
+  elif isinstance(spec, t.Callable):
+    out = ['fv_1', 'fv_2']
+  elif isinstance(spec, t.Type):
+    out = ['int', 'str']
+  elif isinstance(spec, t.Union):
+    for c in spec.candidates:
+      out += _lib_spec_srcs(c, classes, depth + 1)[:2]
+  elif isinstance(spec, t.Any):
+    out = ['1', "{'k': 1}", "{'k': 2}", "'x'", '[1, 2]', '2']
+  if spec.is_noneable:
+    out.append('None')
+  res = []
+  for src in out:
+    if src not in res and _lib_fits(spec, src):
+      res.append(src)
+  return res
+
+
+def _lib_src(c, kw):
+  return _lib_ctor(c) + '(' + ', '.join(f'{k}={v}' for k, v in kw.items()) + ')'
+
+
+def _lib_builds(src):
+  try:
+    _lib_eval(src)
+    return True
+  except Exception:  # pylint: disable=broad-except
+    return False
+
+
+def _lib_is_default(spec, src):
+  """True if the plain value of `src` is the default of the field (Python's ==, plain data only)."""
+  try:
+    v, d = _lib_eval(src), spec.default
+    plain = (type(None), bool, int, float, str, list, dict)
+    return isinstance(v, plain) and isinstance(d, plain) and type(v) in (type(d), *type(d).__mro__) and v == d
+  except Exception:  # pylint: disable=broad-except
+    return False
+
+
+def _lib_family(c, classes, depth=0):
+  """[{'field': None or name, 'kw': {field: source}, 'src': source}]: the base
+  object first, then the objects that differ from it in one field.  Empty if
+  no base object can be built from the schema."""
+  if c in _LIB_CACHE:
+    return _LIB_CACHE[c]
+  _LIB_CACHE[c] = []            # guards the recursion through Object fields.
+  path = _lib_path(c)
+  fields = [(str(k), f.value) for k, f in c.__schema__.fields.items()
+            if isinstance(k, pg.typing.ConstStrKey)]
+  alts = {}
+
+  def values(k, spec):
+    if k not in alts:
+      alts[k] = _LIB_FIELD.get((path, k)) or _lib_spec_srcs(spec, classes, depth)
+    return alts[k]
+  kw = dict(_LIB_BASE.get(path, {}))
+  for k, spec in fields:
+    if k not in kw and not spec.has_default:
+      if not values(k, spec):
+        return []
+      kw[k] = alts[k][0]
+  if not _lib_builds(_lib_src(c, kw)):
+    # the first values do not fit together: try the other values of one field.
+    for k in list(kw):
+      found = [v for v in alts[k][1:] if _lib_builds(_lib_src(c, dict(kw, **{k: v})))]
+      if found:
+        kw[k] = found[0]
+        break
+    else:
+      return []
+  fam = [dict(field=None, kw=kw, src=_lib_src(c, kw))]
+  _LIB_CACHE[c] = list(fam)     # a field of the class's own type (DNA.children) holds the base object.
+  for k, spec in fields:
+    for v in values(k, spec):
+      if kw.get(k) == v or (k not in kw and _lib_is_default(spec, v)):
+        continue      # the base has this value.
+      kw2 = dict(kw, **{k: v})
+      src = _lib_src(c, kw2)
+      if _lib_builds(src):
+        fam.append(dict(field=k, kw=kw2, src=src))
+  _LIB_CACHE[c] = fam
+  return fam
+
+
+# container around a library object -> (template, the object inside).
+_LIB_WRAP = [
+    ('list', '[{}]', lambda w: w[0]),
+    ('sym-dict', 'pg.Dict(k={})', lambda w: w.sym_getattr('k')),
+    ('object-field', 'A({})', lambda w: w.sym_getattr('x')),
+]
+_LIB_WRAP_DP = ('geno-space', "_c('pyglove.core.geno.space', 'Space')(elements=[{}])",
+                lambda w: w.sym_getattr('elements')[0])
+# leaf kinds whose pairs of the *same* kind have a known input class of their own.
+_LIB_LEAF_CLASSES = ('callable', 'set', 'ref', 'unordered-opaque')
+# values that stand for a value computed from the context (pg.symbolic.Inferential):
+# as an entry of a symbolic dict / a field of an object they are an input class
+# of their own (reading the entry computes the value).
+_LIB_INFERRED = pg.symbolic.Inferential
+
+
+def _lib_field_label(c, f, fa, fb):
+  """Input class of a pair of objects of class c that differ in field f (values fa, fb)."""
+  fl = _pair_label(fa, fb)
+  if fl in _STRUCT:
+    return fl
+  if fl.endswith('-leaves'):
+    kinds = set(fl[:-len('-leaves')].split('+'))
+    if _lib_path(c) == _LIB_CUSTOM and 'callable' in kinds:
+      return 'custom-leaves'      # eq ignores the function fields (a finding of its own).
+    for k in _LEAF_PRIORITY:
+      if k in kinds and k in _LIB_LEAF_CLASSES:
+        return k + '-leaves'
+  return f'lib/{_lib_short(c)}.{f}'
+
+
+def _lib_rank(lab):
+  """Order in which one class is picked for a triple: the most specific first."""
+  if lab == 'inferred-value-in-symbolic-parent':
+    r = 0
+  elif not lab.startswith('lib/'):
+    r = 6
+  elif lab == 'lib/cross-class':
+    r = 4
+  elif lab.endswith('/several-fields'):
+    r = 2
+  elif lab.endswith('/different-containers'):
+    r = 3
+  elif lab.endswith('/same-fields'):
+    r = 5
+  else:
+    r = 1                       # lib/<class>.<field>
+  return r, lab
+
+
+def _lib_pick(labels):
+  labels = [l for l in labels if l is not None]
+  return _pick(labels) or min(labels, key=_lib_rank)
+
+
+def _lib_getattr(v, f):
+  try:
+    return v.sym_getattr(f)
+  except Exception:  # pylint: disable=broad-except
+    return None
+
+
+def drv_library(tier, seed):
+  del seed
+  rec = Recorder(
+      'C06', 'eq/ne/lt/gt/hash laws on objects of the classes the library ships, one field varied at a time',
+      scope='')
+  full = tier != 'quick'
+  try:
+    classes = _lib_classes()
+    families = [(c, _lib_family(c, classes)) for c in classes]
+  except Exception as e:  # pylint: disable=broad-except
+    rec.case('lib.setup/enumerate-classes', '', False, f'{type(e).__name__}: {e}',
+             'import pyglove as pg, pyglove.ext.evolution, pyglove.ext.mutfun, pyglove.ext.scalars')
+    return rec.result()
+  ns = _lib_ns()
+  dp = pg.geno.DecisionPoint
+  n_vals = n_cls = 0
+  for c, fam in families:
+    if not fam:
+      continue
+    core = c.__module__.startswith('pyglove.core.') and '.views.' not in c.__module__
+    per_field = 99 if full else (3 if core else 2)
+    members, count = [], {}
+    for m in fam:
+      count[m['field']] = count.get(m['field'], 0) + 1
+      if count[m['field']] <= per_field:
+        members.append(dict(m, wrap=None, inner=lambda w: w))
+    if full or core:
+      # the base below every container, the first object per field below every
+      # container (quick: below one of them, taken in turn).
+      first, wrapped = set(), []
+      wraps = _LIB_WRAP + ([_LIB_WRAP_DP] if issubclass(c, dp) else [])
+      for m in members:
+        if m['field'] in first:
+          continue
+        first.add(m['field'])
+        for w, (name, tmpl, inner) in enumerate(wraps):
+          if full or m['field'] is None or (len(first) - 2) % len(wraps) == w:
+            wrapped.append(dict(m, src=tmpl.format(m['src']), wrap=name, inner=inner))
+      members += wrapped
+    exprs = [m['src'] for m in members]
+    try:
+      xs = [eval(e, ns) for e in exprs]  # pylint: disable=eval-used
+      ys = [eval(e, ns) for e in exprs]  # pylint: disable=eval-used
+    except Exception:  # pylint: disable=broad-except
+      continue                    # (every source was built before: not reached.)
+    short = _lib_short(c)
+    names = [str(k) for k in c.__schema__.fields.keys()]
+
+    ndiff = [[sum(mi['kw'].get(f) != mj['kw'].get(f) for f in names) for mj in members] for mi in members]
+
+    def skip(i, j, members=members, ndiff=ndiff):
+      # quick: the pairs that differ in at most one field, in the same container.
+      return ndiff[i][j] > 1 or members[i]['wrap'] != members[j]['wrap']
+
+    def label(i, j, x, y, c=c, members=members, short=short, names=names):
+      mi, mj = members[i], members[j]
+      if mi['wrap'] != mj['wrap']:
+        return f'lib/{short}/different-containers'
+      diff = [f for f in names if mi['kw'].get(f) != mj['kw'].get(f)]
+      a, b = mi['inner'](x), mj['inner'](y)
+      if not diff:
+        if mi['wrap'] in ('sym-dict', 'object-field') and isinstance(a, _LIB_INFERRED):
+          return 'inferred-value-in-symbolic-parent'
+        return f'lib/{short}/same-fields'
+      if mi['wrap'] in ('sym-dict', 'object-field') and isinstance(a, _LIB_INFERRED):
+        return 'inferred-value-in-symbolic-parent'
+      labs = {_lib_field_label(c, f, _lib_getattr(a, f), _lib_getattr(b, f)) for f in diff}
+      return labs.pop() if len(labs) == 1 else (_pick(labs) or f'lib/{short}/several-fields')
+
+    _check_laws(rec, exprs, xs, ys, [None] * len(exprs), pair_label=label,
+                kind=lambda v, short=short: f'lib/{short}', pick=_lib_pick, literal_hash=False,
+                skip=None if full else skip)
+    n_cls += 1
+    n_vals += len(exprs)
+
+  # ---- across classes: the base objects of all classes and a few ordinary values.
+  bases = [(c, fam[0]['src']) for c, fam in families if fam]
+  if not full:
+    # quick: the classes of the core and the first class of every other module.
+    mods = set()
+    bases = [(c, src) for c, src in bases
+             if (c.__module__.startswith('pyglove.core.') and '.views.' not in c.__module__)
+             or not (c.__module__ in mods or mods.add(c.__module__))]
+  plain = ['pg.MISSING_VALUE', 'None', '1', "'a'", '[1]', "{'k': 1}", 'A(1)']
+  exprs = [s for _, s in bases] + plain
+  owner = [c for c, _ in bases] + [None] * len(plain)
+  xs = [eval(e, ns) for e in exprs]  # pylint: disable=eval-used
+  ys = [eval(e, ns) for e in exprs]  # pylint: disable=eval-used
+
+  def cross_label(i, j, x, y):
+    ci, cj = owner[i], owner[j]
+    if ci is None and cj is None:
+      return _pair_label(x, y)
+    if ci is cj:
+      return f'lib/{_lib_short(ci)}/same-fields'
+    if ci is not None and cj is not None and ci.__qualname__ == cj.__qualname__:
+      return 'same-qualname-classes'
+    return 'lib/cross-class'
+
+  def cross_kind(v):
+    return f'lib/{_lib_short(type(v))}' if type(v) in owner else _kind(v)
+
+  _check_laws(rec, exprs, xs, ys, [None] * len(exprs), pair_label=cross_label,
+              kind=cross_kind, pick=_lib_pick, literal_hash=False)
+  rec.scope = (f'{n_cls} of {len(classes)} concrete pg.Object classes defined in pyglove.* '
+               f'(the others cannot be built from their schema); {n_vals} values x 2 constructions: '
+               'base object + one field changed at a time (values derived from the field specs, '
+               f'{"all" if full else "<=3 (core) / <=2 (ext, views)"} per field), plain and below list / pg.Dict / object field / '
+               'geno.Space; per class all ordered pairs' +
+               ('' if full else ' that differ in at most one field and are in the same container') +
+               f' and the triples through them; across classes: the base objects of {len(bases)} classes '
+               f'and {len(plain)} ordinary values')
+  return rec.result()
+
 
 def _safe(drv):
   """Last resort: an exception that escapes a driver is reported as a failed case
@@ -1464,7 +1930,7 @@ def _safe(drv):
   return run
 
 
-DRIVERS = [_safe(d) for d in (drv_laws, drv_sort, drv_mutation)]
+DRIVERS = [_safe(d) for d in (drv_laws, drv_sort, drv_mutation, drv_library)]
 
 
 def replay(rec):
